@@ -42,4 +42,11 @@ CHECKS = {
   'note': 'Trusted: mc/ref/ndn_strict.read_lp. Unknown header uses an ignorable type; absent NackReason carries no reason claim.',
   'design_ref': 'DESIGN.md section 3 C10',
  },
+ 'C17': {
+  'engine': 'E-sched + E-input',
+  'technique': 'stateless model checking of the implementation: concurrent register/unregister calls x forwarder answer menu x all answer/tick scripts x deviation-bounded schedules on a virtual loop; exhaustive field-subset enumeration for response decoding',
+  'text': 'N<=3 concurrent register/unregister calls at the same clock reading on both front-ends against a simulated forwarder; per command one answer from a menu (200/400/403/500 with and without body, garbage, wrong type, Nack, silence, validator-rejected), every answer/tick script up to a length bound and <=1 (quick) / <=2 (thorough) deviations; every command Interest is checked by the reference readers (name, ControlParameters, signature format, digest), at most one command outstanding, strictly increasing timestamps, result True iff well-formed status 200, never an exception; routes declared before connecting registered once per connection over two connections; all 65536 field subsets of ControlParameters with boundary values through parse_response.',
+  'note': 'Trusted: reference readers; a 200 answer without body carries no result claim; an answer processed at/after the 1 s command lifetime may yield either result.',
+  'design_ref': 'DESIGN.md section 3 C17',
+ },
 }
